@@ -83,6 +83,12 @@ def run_property(prop: str, repo: str, tier: str, only=None, evidence_dir=None, 
 
 
 def main(argv=None) -> int:
+    # a reader that closes the pipe early (`| head`) must not turn into a Python traceback with exit status 1
+    try:
+        import signal
+        signal.signal(signal.SIGPIPE, signal.SIG_DFL)
+    except (ImportError, AttributeError, ValueError):     # pragma: no cover
+        pass
     ap = argparse.ArgumentParser()
     ap.add_argument('prop')
     ap.add_argument('--tier', default=os.environ.get('VERIF_TIER') or 'quick', choices=['quick', 'thorough'])
